@@ -28,11 +28,13 @@ LOWOK = ["Nsl/Model/Opt.lean", "Nsl/Proofs/Opt.lean", "Nsl/Proofs/OptSimBase.lea
          "Nsl/Proofs/OptSimPres.lean", "Nsl/Proofs/OptSimPasses.lean", "Nsl/Proofs/OptSimConv.lean", "Nsl/Proofs/LowerLocal1.lean", "Nsl/Proofs/LowerLocal2.lean",
          "Nsl/Proofs/LowerLocal3.lean", "Nsl/Props/LowerOK.lean"]
 LOWOKS = ["Nsl/Proofs/LowerLocalS1.lean", "Nsl/Proofs/LowerLocalS2.lean", "Nsl/Proofs/LowerLocalS3.lean", "Nsl/Props/LowerOKStorage.lean"]
+VECF = ["Nsl/Model/VectorCore.lean"] + ["Nsl/Proofs/Vec%s.lean" % x for x in ("Base", "Ops", "Vals", "Shape", "Bin", "Rows", "Expr", "Eval", "Store", "Stmt", "Main")] + ["Nsl/Props/C04Sim.lean"]
+LOWV = ["Nsl/Proofs/LowerLocalV%d.lean" % i for i in (1, 2, 3, 4, 5)] + ["Nsl/Props/LowerOKVector.lean"]
 PROPS = {
     "C01": ("p_c01", "Nsl.Props.C01", ["Nsl.Props.C01Storage", "Nsl.Props.LowerOK", "Nsl.Props.LowerOKStorage"], SIM + STOR + LOWOK + LOWOKS),
     "C02": ("p_c02", "Nsl.Props.C02", [], ["Nsl/Model/Opt.lean", "Nsl/Model/VM.lean", "Nsl/Model/IR.lean", "Nsl/Model/Val.lean", "Nsl/Proofs/VMSteps.lean", "Nsl/Proofs/Opt.lean", "Nsl/Proofs/OptSimBase.lean", "Nsl/Proofs/OptSimStep.lean", "Nsl/Proofs/OptSimKept.lean", "Nsl/Proofs/OptSimRun.lean", "Nsl/Proofs/OptSimPres.lean", "Nsl/Proofs/OptSimPasses.lean", "Nsl/Proofs/OptSimConv.lean", "Nsl/Proofs/StepLemmas.lean", "Nsl/Model/WF.lean", "Nsl/Props/C02.lean"]),
-    "C03": ("p_c03", "Nsl.Props.C03", [], SIM + STOR + LOWOK + ["Nsl/Props/C03.lean"]),
-    "C04": ("p_c04", "Nsl.Props.C04", ["Nsl.Props.C04Sim"], ["Nsl/Model/VM.lean", "Nsl/Model/Val.lean", "Nsl/Model/Lower.lean", "Nsl/Proofs/StepLemmas.lean", "Nsl/Props/C04.lean", "Nsl/Model/VectorCore.lean",
+    "C03": ("p_c03", "Nsl.Props.C03", [], SIM + STOR + LOWOK + VECF + LOWV + ["Nsl/Props/C03.lean"]),
+    "C04": ("p_c04", "Nsl.Props.C04", ["Nsl.Props.C04Sim", "Nsl.Props.LowerOKVector"], LOWV + ["Nsl/Model/VM.lean", "Nsl/Model/Val.lean", "Nsl/Model/Lower.lean", "Nsl/Proofs/StepLemmas.lean", "Nsl/Props/C04.lean", "Nsl/Model/VectorCore.lean",
                                                "Nsl/Model/Core.lean", "Nsl/Model/CoreSem.lean"] + ["Nsl/Proofs/Vec%s.lean" % x for x in ("Base", "Ops", "Vals", "Shape", "Bin", "Rows", "Expr", "Eval", "Store", "Stmt", "Main")] + ["Nsl/Props/C04Sim.lean"]),
     "C05": ("p_c05", "Nsl.Props.C05", ["Nsl.Props.C05IR"], SIM + STOR + LOWOK + ["Nsl/Props/C05.lean", "Nsl/Model/IRType.lean", "Nsl/Proofs/IRTypeBase.lean", "Nsl/Proofs/IRTypeOps.lean",
                                                "Nsl/Proofs/IRTypeOps2.lean", "Nsl/Proofs/IRTypeInv.lean", "Nsl/Proofs/IRTypeStep1.lean", "Nsl/Proofs/IRTypeStep2.lean", "Nsl/Proofs/IRTypeRun.lean", "Nsl/Props/C05IR.lean"]),
@@ -46,7 +48,7 @@ PROPS = {
     "C11": ("p_c11", "Nsl.Props.C11", [], ["Nsl/Model/Flow.lean", "Nsl/Proofs/Flow.lean", "Nsl/Props/C11.lean"]),
     "C12": ("p_c12", "Nsl.Props.C12", [], ["Nsl/Model/Names.lean", "Nsl/Proofs/Names.lean", "Nsl/Proofs/NamesBinding.lean", "Nsl/Proofs/NamesStatic.lean", "Nsl/Props/C12.lean"]),
     "C13": ("p_c13", "Nsl.Props.C13", [], ["Nsl/Model/Static.lean", "Nsl/Proofs/Static.lean", "Nsl/Props/C13.lean"]),
-    "C14": ("p_c14", "Nsl.Props.C14", ["Nsl.Props.C14Opt", "Nsl.Props.LowerWF"], ["Nsl/Proofs/LowerWF1.lean", "Nsl/Proofs/LowerWF2.lean", "Nsl/Proofs/LowerWF3.lean", "Nsl/Proofs/LowerWF4.lean", "Nsl/Props/LowerWF.lean",
+    "C14": ("p_c14", "Nsl.Props.C14", ["Nsl.Props.C14Opt", "Nsl.Props.LowerWF", "Nsl.Props.LowerOKVector"], LOWV + ["Nsl/Proofs/LowerWF1.lean", "Nsl/Proofs/LowerWF2.lean", "Nsl/Proofs/LowerWF3.lean", "Nsl/Proofs/LowerWF4.lean", "Nsl/Props/LowerWF.lean",
                                                "Nsl/Proofs/LowerLocal1.lean", "Nsl/Proofs/LowerLocal2.lean", "Nsl/Proofs/LowerLocalS1.lean", "Nsl/Proofs/LowerLocalS2.lean", "Nsl/Model/ScalarCore.lean", "Nsl/Model/StorageCore.lean","Nsl/Model/WF.lean", "Nsl/Proofs/WF.lean", "Nsl/Props/C14.lean", "Nsl/Model/IR.lean", "Nsl/Model/Opt.lean",
                                                "Nsl/Proofs/WFBlock.lean", "Nsl/Proofs/WFOpt.lean", "Nsl/Proofs/OptSimBase.lean", "Nsl/Proofs/OptSimPres.lean", "Nsl/Proofs/OptSimPasses.lean", "Nsl/Props/C14Opt.lean"]),
     "C16": ("p_c16", "Nsl.Props.C16", [], ["Nsl/Model/Link.lean", "Nsl/Proofs/Link.lean", "Nsl/Props/C16.lean"]),
